@@ -74,6 +74,10 @@ func runC06(s *kernel.Sim) {
 		ttlS = qWin + tp.Range(1, 3)
 	}
 	usePrio := tp.Chance(2, 3)
+	c06PrioBase = 1
+	if usePrio && tp.Chance(1, 3) {
+		c06PrioBase = 0 // the groups are numbered from 0, the highest priority there is
+	}
 	nArr := tp.Range(2, 10)
 	if profile == 6 && nArr < 4 {
 		nArr = 4
@@ -95,6 +99,7 @@ func runC06(s *kernel.Sim) {
 	const tick = 100 * time.Millisecond
 	const slack = 300 * time.Millisecond
 	s.Knobs["quota_max"], s.Knobs["quota_window_s"], s.Knobs["queue_size"], s.Knobs["ttl_s"] = qMax, qWin, qSize, ttlS
+	s.Knobs["first_priority_number"] = c06PrioBase
 	s.Knobs["prio"], s.Knobs["arrivals"], s.Knobs["cancel_at_step"], s.Knobs["lock_sites"] = usePrio, nArr, cancelAt, density
 
 	ctx, cancel := context.WithCancel(context.Background())
@@ -223,14 +228,14 @@ func runC06(s *kernel.Sim) {
 		h := map[string]string{}
 		if usePrio && like != nil {
 			r.prio = like.prio
-			if like.prio >= 1 && like.prio <= 3 {
-				h["x-prio"] = prios[like.prio-1]
+			if like.prio != 999 {
+				h["x-prio"] = prios[like.prio-c06PrioBase]
 			}
 		} else if usePrio {
 			g := tp.Choose(len(prios))
 			if prios[g] != "" {
 				h["x-prio"] = prios[g]
-				r.prio = g + 1
+				r.prio = g + c06PrioBase
 			} else {
 				r.prio = 999
 			}
@@ -734,12 +739,16 @@ func runC06(s *kernel.Sim) {
 	}
 }
 
+// c06PrioBase is the number of the first priority group (0 or 1; 0 is the
+// highest priority the processor knows); set by runC06 before c06Files is called.
+var c06PrioBase = 1
+
 // c06Files: one Queue-processor flow on a.com/q with a fixed-window quota.
 func c06Files(qMax, qWin, qSize int64, ttlS int, usePrio bool) map[string]string {
 	params := [][2]string{{"quota_id", "q"}, {"ttl_seconds", fmt.Sprint(ttlS)}, {"queue_size", fmt.Sprint(qSize)}}
 	if usePrio {
 		params = append(params, [2]string{"priority_group_by_header", "x-prio"},
-			[2]string{"priority_groups", "\n          p1: 1\n          p2: 2\n          p3: 3"})
+			[2]string{"priority_groups", fmt.Sprintf("\n          p1: %d\n          p2: %d\n          p3: %d", c06PrioBase, c06PrioBase+1, c06PrioBase+2)})
 	}
 	return map[string]string{
 		"quotas/quota.yaml": fmt.Sprintf("quotas:\n  - id: q\n    filter:\n      url: a.com/q\n    strategy:\n      fixed_window:\n        max: %d\n        interval: %d\n        interval_unit: second\n", qMax, qWin),
